@@ -212,6 +212,14 @@ S('rv_ops_k3_prefilled', 'reusable/rv.cpp', {'assert': 'C12'}, defs=['VF_K=2', '
 # ----------------------------------------------------------------------------------------------- C19: counters / thread locals (sequential thread generations)
 S('cnt_generations', 'counter/cnt.cpp', {'assert': 'C19'}, extra=['babylon/concurrent/counter.cpp'], models=['sc'], bound=12)
 
+# ----------------------------------------------------------------------------------------------- C07: executors
+EXX = ['babylon/executor.cpp', 'babylon/basic_executor.cpp']
+def tpx(name, ts, final, local=0, **kw):
+    S('tp_' + name, 'executor/tp.cpp', kw.pop('props', {'assert': 'C07', 'stuck': 'C07'}), defs=['VF_LOCAL=%d' % local] + ['VF_T%d=%s' % (i, t) for i, t in enumerate(ts)] + ['VF_FINAL=' + final], extra=EXX, **kw)
+tpx('submit_then_stop', ['SUBMIT(0);STOP_MARKS(1);JOIN(0);vf_check(__atomic_load_n(&ran[0], __ATOMIC_RELAXED)==1, 1)', 'WORKER(0)'], 'vf_check(ran[0]==1 && in_pool[0]==1 && ret[0]==0, 2)')
+tpx('two_tasks', ['SUBMIT(0);SUBMIT(1);STOP_MARKS(1);JOIN(0)', 'WORKER(0)'], 'vf_check(ran[0]==1 && ran[1]==1, 2)')
+tpx('spawn_local', ['SUBMIT_SPAWNING(0,1);STOP_MARKS(1);JOIN(0);vf_check(__atomic_load_n(&ran[1], __ATOMIC_RELAXED)==1, 1)', 'WORKER(0)'], 'vf_check(ran[0]==1 && ran[1]==1 && in_pool[1]==1, 2)', local=2)
+
 # ----------------------------------------------------------------------------------------------- manifest texts
 LEVEL_TEXT = {
  'C01': 'Real ConcurrentBoundedQueue<two-word payload, VS> IR; client programs of 2-4 threads mixing push/pop/try_/push_n/pop_n/callback variants on capacities 1-2; oracle = exactly-once multiset, per-thread FIFO, fully published payload, try_ success when sequenced after enough completed operations.',
